@@ -2,9 +2,44 @@
 
 from __future__ import annotations
 
+from ..common import rotate, run_pool
 from ._kxcheck import replay_kx, run_kx
 
 ORACLES = ["peephole"]
+
+
+def tree_phase(run, tier, seed, tot):
+    """C07(b): every well-typed IR tree within the bound, peephole output vs input on the AM."""
+    nblocks = 32 if tier == "quick" else 64
+    units = [{"what": "d1"}, {"what": "families"}]
+    units += [{"what": "statements", "part": k, "parts": 8, "depth2": True} for k in range(8)]
+    # depth-2 expressions: quick explores every 4th left-operand block (all right operands), thorough all
+    blocks = range(nblocks) if tier != "quick" else range(seed % 4, nblocks, 4)
+    units += [{"what": "d2", "block": b, "nblocks": nblocks} for b in blocks]
+    print(f"[C07] (b) IR tree explorer: {len(units)} work units", flush=True)
+    trees = 0
+    for status, res in run_pool("vx.txwork", "work_peephole", rotate(units, seed)):
+        if status != "ok":
+            run.report({"signature": {"kind": status}, "what": f"worker failed: {res}", "case": {}})
+            continue
+        trees += res["n"]
+        for k, v in res["stats"].items():
+            run.counters["trees: " + k] += v
+        run.report_all(res["findings"])
+    evals = run.counters["trees: expression evaluations"] + run.counters["trees: statement evaluations"]
+    tot["states"] += trees
+    tot["transitions"] += evals
+    tot["nontrivial"] += run.counters["trees: expressions rewritten"] + run.counters["trees: statements rewritten"]
+    run.coverage["ir_trees"] = trees
+    run.coverage["ir_tree_space"] = (
+        "expressions of depth <= 2 over {0,1,2, 0.0,1.0,2.5, true,false, xi,yi (int), xf (float), xb (bool), a[xi], "
+        "v[xi]} with every operator of ir/ast.py that types" + ("" if tier != "quick" else " (depth 2: every 4th "
+        "left-operand block, rotated by VERIF_SEED)") + "; all trees with <= 4 leaves over + - * with every int/float "
+        "typing of the leaves; comparison/min/max/and/or/bool-to-int nests; statements: assignments incl. x = x and "
+        "the compound-assignment shapes, declaration-assignments, blocks (<= 2, empty, commented), branches (either "
+        "arm possibly empty, constant or variable condition), loops (constant-false, counted, empty body), nesting "
+        "depth <= 2; environments ints {-1,0,1,2,46341}, floats {-1.5,0.0,1.0,2.5}, bools, arrays of length 3")
+    return 0
 
 
 def run(tier, seed):
@@ -16,8 +51,14 @@ def run(tier, seed):
         rule="(a) every kernel the generator produces, before (TENSORA_VERIF_NO_PEEPHOLE hook) vs after the peephole "
              "pass, evaluate and assemble+compute, on every dimension vector x joint structure: same return value, "
              "same output tensor, same contents of every live kernel array, optimised access set a subset of the "
-             "original's, optimised run faults nowhere the original does not",
-        assumptions=["float equality is equality of polynomials over Q (numerical equality, sign of zero ignored)"],
+             "original's, optimised run faults nowhere the original does not; (b) every well-typed IR expression / "
+             "statement tree within the bound (see ir_tree_space): peephole_expression / peephole_statement output vs "
+             "input on every environment where the original runs safely - same final state of all variables and "
+             "arrays, no new access, no new fault",
+        assumptions=["float equality is equality of polynomials over Q (numerical equality, sign of zero ignored)",
+                     "(b) states in which the original tree is unsafe on the abstract machine (overflow, out-of-bounds, "
+                     "non-termination within the step budget) are excluded, as the property says"],
+        extra_phase=tree_phase,
     )
 
 
